@@ -101,7 +101,9 @@ func (q *qworld) requester(subject, reply, kind string) {
 }
 
 func init() {
+	withRID := "t.q"
 	mk := func(name, cb string, reqs []string, failSub, concurrent bool, chain int) {
+		withRID := withRID
 		reg(&Scenario{Name: name, Make: func(cfg Cfg) (func(), *Spec) {
 			qs := &QSpec{CB: cb, Requests: map[string]string{}, FailSub: failSub, Events: chain}
 			for i, k := range reqs {
@@ -117,7 +119,7 @@ func init() {
 				q.StartServe(sdone)
 				for ev := 0; ev < chain; ev++ {
 					ev := ev
-					q.S.With("t.q", func(r res.Resource) {
+					q.S.With(withRID, func(r res.Resource) {
 						q.CB(fmt.Sprintf("start%d", ev), r.Group(), "g")
 						r.QueryEvent(q.qcb(cb, ev))
 					})
@@ -283,6 +285,11 @@ func init() {
 	mk("QE2", "model", []string{"valid", "malformed"}, false, false, 1)
 	mk("QEempty", "model", []string{"empty"}, false, false, 1)
 	mk("QEnopayload", "model", []string{"nopayload"}, false, false, 1)
+	// the query event is started on a resource that itself carries a query
+	withRID = "t.q?foo=bar"
+	mk("QEnopayloadQ", "model", []string{"nopayload", "empty"}, false, false, 1)
+	mk("QE1Q", "model", []string{"valid"}, false, false, 1)
+	withRID = "t.q"
 	mk("QEfail", "model", nil, true, false, 1)
 	mk("QEconc", "events", []string{"valid"}, false, true, 1)
 	mk("QEchain", "nothing", []string{"valid"}, false, false, 3)
